@@ -101,7 +101,10 @@ static void judge_deep(Ctx& ctx, const Case& c, bool from_replay) {
   const int N = (int)c.geti("N"); const bool cw = c.geti("cw") != 0; const int ct = (int)c.geti("ct"), fr = (int)c.geti("fr"); const bool rev = c.geti("rev") != 0;
   Paths64 S; S.reserve((size_t)N);
   for (int k = 0; k < N; ++k) { int64_t rad = 40 + 9 * (int64_t)k; Path64 p = gen::box(-rad - (k % 2), -rad, rad, rad + (k % 3), !cw); S.push_back(p); }
-  const Paths64& C = c.P("C");
+  Paths64 C = c.P("C");
+  // bar variant: the clip polygon reaches from the centre through every ring to the outside, so that clip edges cross
+  // subject edges at every winding depth (the sweep classifies wind counts at edge intersections)
+  if (c.geti("bar") != 0) { const int64_t Rout = 40 + 9 * (int64_t)N; C = Paths64{ Path64{ Point64(-13, -11), Point64(Rout + 50, (int64_t)-9), Point64(Rout + 52, (int64_t)10), Point64(-11, 13) } }; ctx.count("deep_cases_with_clip_bar_across_all_rings"); }
   Case cc = c; cc.p64["S"] = Paths64();   // the witness stays small: S is rebuilt from N
   ctx.begin(c);
   Clipper64 clipper; clipper.ReverseSolution(rev); clipper.AddSubject(S); clipper.AddClip(C);
@@ -131,10 +134,11 @@ void vf_case(Ctx& ctx, uint64_t i) {
     const bool th = ctx.optint("deep_thorough", 0) != 0;
     Case c;
     if (!th) { c.seti("N", quickN[i % 7]); uint64_t v = i / 7;
-      c.seti("cw", (long long)(v & 1)); c.seti("fr", (long long)((v >> 1) & 3)); c.seti("ct", 1 + (long long)((v >> 3) & 3)); c.seti("rev", (long long)((v >> 5) & 1)); }
+      c.seti("cw", (long long)(v & 1)); c.seti("fr", (long long)((v >> 1) & 3)); c.seti("ct", 1 + (long long)((v >> 3) & 3)); c.seti("rev", (long long)((v >> 5) & 1)); c.seti("bar", (long long)((v >> 6) & 1)); }
     else {   // 27 expensive cases (the sweep is quadratic in the nesting depth): 8200 and 16390 rings x 3 winding-sensitive
       // fill rules x both orientations x {Intersection, Difference}; 32780 rings x 3 combinations
       if (i >= 27) return;
+      c.seti("bar", (long long)((i / 3) & 1));
       if (i < 24) { c.seti("N", i < 12 ? 8200 : 16390); uint64_t v = i % 12; c.seti("fr", 1 + (long long)(v % 3)); c.seti("cw", (long long)((v / 3) & 1)); c.seti("ct", (v / 6) ? 3 : 1); c.seti("rev", 0); }
       else { static const int fr3[] = { 1, 3, 2 }, cw3[] = { 0, 1, 0 }, ct3[] = { 1, 1, 3 }; c.seti("N", 32780); c.seti("fr", fr3[i - 24]); c.seti("cw", cw3[i - 24]); c.seti("ct", ct3[i - 24]); c.seti("rev", 0); }
     }
@@ -164,5 +168,5 @@ void vf_replay(Ctx& ctx, const Case& c) { if (c.has("deep")) judge_deep(ctx, c, 
 
 void vf_end(Ctx& ctx) {
   ctx.count("gp_candidates_tried", g_gc.tries);
-  ctx.count("gp_candidates_rejected", g_gc.rejected);
+  ctx.count("gp_candidates_rejected", g_gc.rejected); ctx.count("gp_flat_dense_scanline_scenes", g_gc.flat); ctx.count("gp_scenes_with_crossing_a_hair_past_a_scanline", g_gc.tie);
 }
